@@ -1001,7 +1001,7 @@ class C13(Prop):
     id = "C13"
     n_quick = 2000
     n_thorough = 30000
-    required_theorems = ["C13_sep_shape", "C13_sep_left", "C13_sep_right", "C13_sep_effect", "C13_trim_left_ws_only", "C13_trim_right_ws_only", "C13_static_debug_render", "C13_static_modes_agree", "C13_compiler_state_per_template"]
+    required_theorems = ["C13_sep_shape", "C13_sep_left", "C13_sep_right", "C13_sep_effect", "C13_trim_left_ws_only", "C13_trim_right_ws_only", "C13_static_debug_render", "C13_static_modes_agree", "C13_static_debug_only_deletes", "C13_compiler_state_per_template"]
     rule = ("every generated C02 / C06 / C03 program (with its neighbour templates) rendered by the real engine with Engine.Debug false and true; one in eight also prints an "
             "undefined variable unescaped, one in ten calls the module's asset() next to an asset manifest. Oracle on the two real outputs: "
             "equal after removing all white space, and the debug output is obtained from the production output by deleting white-space characters only. "
